@@ -366,7 +366,9 @@ static void mode_hist(vf::Ctx& c)
 		long stopCalledAt = -1, firstSignal = -1;
 		for (size_t i = 0; i < ev.size(); i++) { if (ev[i].e == STOP_CALLED && stopCalledAt < 0) stopCalledAt = (long)i; if (ev[i].e == SIGNAL_SENT && firstSignal < 0) firstSignal = (long)i; }
 		for (size_t i = 0; i < ev.size(); i++)
-			if (ev[i].e == CLIENT_NOECHO && (stopCalledAt < 0 || (long)i < stopCalledAt) && (firstSignal < 0 || (long)i < firstSignal) && !fd0Unix(unixSock))
+			// only for small histories: with a large burst the listen backlog (5) overflows and the kernel's SYN / SYN-ACK retransmission
+			// schedule (1, 3, 7, 15, 31 s), not the server, decides when a "connected" client becomes acceptable (seen once on a loaded machine)
+			if (N <= 12 && ev[i].e == CLIENT_NOECHO && (stopCalledAt < 0 || (long)i < stopCalledAt) && (firstSignal < 0 || (long)i < firstSignal) && !fd0Unix(unixSock))
 				c.fail("connected-client-not-served-within-30s", "token " + ev[i].token + " | " + log.str());
 	}
 	if (accepted != enters || enters != exits) c.fail("conservation.accepted-entered-exited", vf::fmt("accepted %d, serve entered %d, serve returned %d | ", accepted, enters, exits) + log.str());
